@@ -276,4 +276,5 @@ def run(ck):
     shared.pure_writer(ck, top, wt, [wt.args.args[0].arg])
     shared.truthy_zero(ck, ['vermouth/molecule.py', 'vermouth/gmx/itp.py', 'vermouth/gmx/topology.py', 'vermouth/pdb/pdb.py', 'vermouth/processors/name_moltype.py',
                            'vermouth/processors/sort_molecule_atoms.py'])
+    shared.sorted_nodes_rule(ck, 'SIB-atom-order')
     ck.assume('file contents are not decided; equal topologies are assumed to print equal text')
